@@ -1,6 +1,7 @@
 package main
 
 import (
+	"os"
 	"fmt"
 	"sort"
 
@@ -47,5 +48,11 @@ func dumpExternals(p *Program) {
 	sort.Strings(ks)
 	for _, k := range ks {
 		fmt.Printf("%-70s %d  e.g. %s\n", k, len(seen[k]), seen[k][0])
+	}
+}
+
+func debugf(format string, a ...any) {
+	if os.Getenv("GTFSDEBUG") != "" {
+		fmt.Fprintf(os.Stderr, "DEBUG "+format+"\n", a...)
 	}
 }
